@@ -10,7 +10,7 @@ use crate::world::{CloseKind, Cond, Opts, Outcome, Scenario, Step};
 use std::collections::BTreeMap;
 
 pub const PROGRAMS: &[&str] = &[
-    "txn", "auto2", "drop-in-txn", "fin-in-txn", "srv-error", "srv-kill", "copyout-srvfail", "copyin-srvfail", "copy-abort", "batch-drop", "exttxn",
+    "txn", "auto2", "drop-in-txn", "fin-in-txn", "srv-error", "srv-kill", "copyout-srvfail", "copyin-srvfail", "copy-abort", "batch-drop", "exttxn", "srv-reset-idle",
 ];
 
 pub fn program(c: usize, prog: &str, stay: bool) -> Script {
@@ -78,6 +78,19 @@ pub fn program(c: usize, prog: &str, stay: bool) -> Script {
             b.extend(wire::execute("", 0));
             b.extend(wire::sync());
             s = s.q(&format!("BEGIN /*{}*/", t(0, 0))).send_z(b, "P B E S").q(&format!("COMMIT /*{}*/", t(0, 2))).terminate();
+        }
+        "srv-reset-idle" => {
+            // the server drops its established connections while they sit idle in the pool (restart,
+            // failover, idle-session timeout): each dead connection may cost one client error, then
+            // capacity must be back
+            s = s.q(&format!("SELECT 1 /*{}*/", t(0, 0))).step(Step::KillServerConns("pg-s0-p0:5432".into()));
+            for k in 1..=3 {
+                s = s
+                    .step(Step::Reconnect { user: "alice".into(), db: "db".into(), password: Some("alicepw".into()) })
+                    .send(wire::query(&format!("SELECT {} /*{}*/", k + 1, t(k, 0))), &format!("Q SELECT {}", k + 1))
+                    .wait(Cond::ReplyOrClosed);
+            }
+            s = s.step(Step::Reconnect { user: "alice".into(), db: "db".into(), password: Some("alicepw".into()) }).terminate();
         }
         _ => panic!("unknown program {}", prog),
     }
@@ -352,7 +365,7 @@ pub fn build(tier: &str) -> SimCheck {
         oracle: Box::new(oracle),
         bound: if thorough { 2 } else { 1 },
         limits: Limits { max_wall_s: if thorough { 1500.0 } else { 50.0 }, ..Default::default() },
-        rule: "scenario = pool mode x pool_size {1,2} x (pool_size+1 or +2) client programs (normal, aborts by hard drop/FIN mid-transaction, mid-COPY, mid-batch, server-side errors, server closing mid-reply, server-failed COPY) plus hold-past-connect_timeout with/without checkout_failure_limit; all schedules with <= bound deviations; then pool_size simultaneous probe transactions and a pooler-state probe; distinct = distinct end-to-end histories".into(),
+        rule: "scenario = pool mode x pool_size {1,2} x (pool_size+1 or +2) client programs (normal, aborts by hard drop/FIN mid-transaction, mid-COPY, mid-batch, server-side errors, server closing mid-reply, server-failed COPY, server dropping its idle pooled connections) plus hold-past-connect_timeout with/without checkout_failure_limit; all schedules with <= bound deviations; then pool_size simultaneous probe transactions and a pooler-state probe; distinct = distinct end-to-end histories".into(),
         assumptions: vec![
             "connections are counted on the reference backend's side (accepted minus closed) at quiescent points".into(),
             "hung servers belong to C07's alphabet".into(),
